@@ -36,6 +36,9 @@ CLAIMED = {
  "C10": dict(cat="model_checking", technique="TLA+ specification as oracle (SluOrder!OrderOK evaluated by TLC on every record of the real get_perm_c/sp_colorder), exhaustive over small patterns",
              text="Declarative TLA+ definitions of permutation, A*Pc view, column elimination tree (symbolic elimination of the column intersection graph), postorder and partition are evaluated by TLC on the output of the real routines for every 0/1 pattern with n<=3 (n<=4 thorough), all five ordering options, both modes, plus random patterns to n=16.",
              note="Exhaustive only for n<=3/4; set-based TLA+ definitions limit checked sizes to n<=16.", ref="3.1, 4.5, 5 C10"),
+ "C16": dict(cat="model_checking", technique="TLA+ specification as oracle (SluOrder symmetric variant: etree of Pc(A+A')Pc', Cholesky-count bound under diagonal pivoting) + SluApi/SluPipe trace validation of symmetric-mode expert-driver calls (ASan build)",
+             text="TLC evaluates on the real sp_colorder output in symmetric mode, for every full-diagonal pattern up to n=3/4 and random ones, that the etree/postorder are right and the Cholesky counts dominate L under diagonal pivoting; expert-driver histories with SymmetricMode=YES, u=0, ordering 2 on diagonally dominant matrices must show perm_r = perm_c, the accuracy clauses of C07, and SlotBound on every recorded factorization.",
+             note="Diagonal dominance generated by the harness; accuracy via the long-double oracle; F10 was found here and repaired (fix commit).", ref="3.3, 5 C16"),
 }
 NA_REASON = "check not built yet in this session (planned, see DESIGN.md section 5); not claimed"
 
